@@ -323,7 +323,46 @@ def h_list_files(h: H):
             h.ensure("LIST-REL:walks-the-resolved-prefix", walks[0]["path"] == calls[0][2])
 
 
-register(Unit(P, "LIST-REL/list_files", h_list_files, functions=[f"{SB}:LocalStorageBackend.list_files"], replay=_replay_resolve))
+def _replay_listing(ob):
+    return '''
+import sys, os, tempfile, shutil, time
+from datashard import create_table
+from datashard.data_structures import Schema
+root = tempfile.mkdtemp(prefix="pyvc_replay_")
+bad = []
+try:
+    p = os.path.join(root, "tbl")
+    t = create_table(p, schema=Schema(schema_id=1, fields=[{"id": 1, "name": "a", "type": "long", "required": False}]))
+    t.append_records([{"a": 1}])
+    out = os.path.join(root, "elsewhere"); os.makedirs(os.path.join(out, "deep"))
+    for n in ("foreign.parquet", os.path.join("deep", "foreign2.parquet")):
+        open(os.path.join(out, n), "wb").write(b"not ours")
+    old = time.time() - 7200
+    for d, _s, fs in os.walk(out):
+        for f in fs: os.utime(os.path.join(d, f), (old, old))
+    os.symlink(out, os.path.join(p, "data", "archive"))                      # a directory symlink inside the table, pointing outside
+    os.symlink(os.path.join(out, "foreign.parquet"), os.path.join(p, "data", "alias.parquet"))
+    listed = t.storage.list_files("data")
+    inside_real = os.path.realpath(p)
+    for name in listed:
+        full = os.path.join(p, name)
+        rd = os.path.realpath(os.path.dirname(full))
+        if not (rd == inside_real or rd.startswith(inside_real + os.sep)):
+            bad.append(("listing descended into a directory outside the table root", name))
+    try:
+        t.garbage_collect(grace_period_ms=1000)
+    except Exception:
+        pass
+    for n in ("foreign.parquet", os.path.join("deep", "foreign2.parquet")):
+        if not os.path.exists(os.path.join(out, n)): bad.append(("a file outside the table root was deleted by the collector", n))
+finally:
+    shutil.rmtree(root, ignore_errors=True)
+print("replay listing ->", bad or "contained")
+sys.exit(1 if bad else 0)
+'''
+
+
+register(Unit(P, "LIST-REL/list_files", h_list_files, functions=[f"{SB}:LocalStorageBackend.list_files"], replay=_replay_listing))
 
 
 # =================================================================================== ARROW-PATH
@@ -376,6 +415,8 @@ def h_arrow_path(h: H):
         vz = pyops.str_z(val)
         h.ensure("ARROW-PATH:result-inside-canonical-root", inside(rb, vz))
         h.ensure("ARROW-PATH:result-is-canonical(symlink-free)", REAL(vz))
+        h.ensure("ARROW-PATH:result-names-a-file-strictly-inside-the-root(never-the-root-itself)", vz != rb,
+                 detail="writers stage their temp file in dirname(result): for the root itself that is the table's PARENT directory")
         h.cover("ARROW-PATH:accepts-true-absolute-inside", z3.And(z3.PrefixOf(SLASH, path.z), len(calls) == 0))
     else:
         h.ensure("ARROW-PATH:rejects-with-ValueError", val.cls == "ValueError", detail=repr(val))
@@ -430,6 +471,24 @@ try:
             if not (r == real or r.startswith(real + os.sep)): bad.append(("escaped", q, r))
         except ValueError:
             pass
+    # spellings of the table root itself: a writer would stage its temp file in dirname(root) = the table's parent directory
+    import pyarrow.parquet as pq
+    targets = []
+    orig = pq.ParquetWriter
+    class W(orig):
+        def __init__(self, where, *a, **k):
+            targets.append(str(where)); super().__init__(where, *a, **k)
+    pq.ParquetWriter = W
+    try:
+        for q in ["", ".", "data/..", "./", "metadata/../"]:
+            try:
+                dfm.write_data_file(file_path=q, records=[{"a": 1}], iceberg_schema=t._get_current_schema())
+            except Exception:
+                pass
+    finally:
+        pq.ParquetWriter = orig
+    out_w = [w for w in targets if not os.path.realpath(w).startswith(real + os.sep)]
+    if out_w: bad.append(("a parquet file was staged outside the table root for a path that resolves to the root itself", out_w[:2]))
 finally:
     shutil.rmtree(root, ignore_errors=True)
 print("replay arrow path ->", bad or "contained")
